@@ -23,3 +23,22 @@ Theorem C01_fresh_numbers s g p l m : reach s g p -> open_steps s = Some (l, m) 
   (forall n, In n (vers m) -> n < next m) /\ mfile m < next m /\ visible s (vers m) = Some g.
 Proof. exact (fresh_numbers s g p l m). Qed.
 Print Assumptions C01_fresh_numbers.
+
+(* several families of one store (kv/store.go newStore / CreateFamily, OPTIONS, manifest records routed by family id), at
+   operation granularity: every history of create-family / flush / reopen shows in every family exactly what was committed
+   into it, in commit order, and family ids are one-to-one with the family names *)
+From LinDBV.C01 Require Families FamiliesProofs.
+Theorem C01_families_routed : forall l n,
+  let s := Families.run true true Families.init l in
+  Families.view s n = Families.committed s n /\ FamiliesProofs.one_to_one (Families.opts (Families.d s)).
+Proof. exact FamiliesProofs.families_routed. Qed.
+Print Assumptions C01_families_routed.
+(* the id sequence not restored at open / the id taken before the increment: a family created after a reopen shares an id *)
+Theorem C01_seq_not_restored_refuted :
+  FamiliesProofs.mixed (Families.run false true Families.init FamiliesProofs.hist) [1; 2] = true.
+Proof. exact FamiliesProofs.seq_not_restored_refuted. Qed.
+Print Assumptions C01_seq_not_restored_refuted.
+Theorem C01_id_taken_before_increment_refuted :
+  FamiliesProofs.mixed (Families.run true false Families.init FamiliesProofs.hist) [1; 2] = true.
+Proof. exact FamiliesProofs.id_taken_before_increment_refuted. Qed.
+Print Assumptions C01_id_taken_before_increment_refuted.
